@@ -170,3 +170,29 @@ h("c08_range_request_pending_step", ["C08"], "thorough", "send and/or first frag
 h("c08_single_retries", ["C08"], "quick", "offset<16, size 1..5, retries 0..2, three arbitrary replies",
   "single() (read_at path) retries from the original offset with the full range each time, <= retries+1 requests, error only when exhausted, body is a prefix of the range",
   ["HttpRangeRequest::single", "HttpRangeRequest::single_fail"], [STUB_REQWEST, STUB_FORMAT, STUB_SLEEP])
+
+# ---------------------------------------------------------------------------
+# C04
+# ---------------------------------------------------------------------------
+IDEAL = "HashSum::b2_digest (Blake2b-512) replaced in the mirror by an ideal digest: injective embedding of the data (<=62 bytes) into 64 bytes; collision resistance is an assumption"
+prop("C04",
+     outside="the header checksum test inside try_init (Blake2 + prost over symbolic bytes), real decompressors (brotli/lzma/zstd loops), CLI exit status and --verify-output; chunks > 5 bytes; the pinned-header condition is the expression extracted from src/clone_cmd.rs, the surrounding CLI flow is read, not executed",
+     assumptions=["Blake2b-512 collision/second-preimage resistance (modelled by the ideal digest)",
+                  "an archive's header checksum is a full 64-byte HashSum (Archive::try_init constructs it from 64 bytes)"])
+h("c04_verify_step", ["C04"], "quick", "chunk data <= 5 symbolic bytes; expected hash: 64 symbolic bytes truncated to any L in 1..64",
+  "ArchiveChunk::verify is Ok iff the first L bytes of the digest equal the expected hash; Ok hands on the unchanged chunk with that hash, Err carries the chunk (no VerifiedChunk exists for a mismatching chunk)",
+  ["ArchiveChunk::verify", "HashSum::truncate", "HashSum::eq"], [IDEAL])
+h("c04_verified_means_same_bytes", ["C04"], "thorough", "fetched chunk <= 4 bytes, source chunk <= 4 bytes, hash length 6..64 (truncated ideal digest still injective)",
+  "a fetched chunk that verifies against the hash of source data IS that data", ["ArchiveChunk::verify"], [IDEAL])
+h("c04_decompress_raw_identity", ["C04", "C17"], "quick", "chunk <= 5 symbolic bytes, any source_size",
+  "a raw (compression == None) chunk reaches verification byte-identical with its expected hash", ["CompressedArchiveChunk::decompress", "CompressedChunk::decompress"])
+h("c04_hashsum_eq_is_prefix_compare", ["C04", "C02"], "quick", "two HashSums: 64 symbolic bytes and any length 0..64 each (full width)",
+  "HashSum == HashSum compares exactly the first min(len) bytes", ["HashSum::eq"])
+h("c04_hashsum_truncate_from", ["C04", "C02"], "quick", "64 symbolic bytes, any truncation lengths",
+  "From<&[u8]> keeps the bytes, truncate only ever shortens, slice() is the prefix", ["HashSum::from", "HashSum::truncate", "HashSum::slice"])
+h("c04_pinned_header_full_length", ["C04"], "quick", "expected: any 64-byte value; archive header checksum: any 64 bytes",
+  "with a full-length --verify-header value the CLI's condition (extracted from src/clone_cmd.rs) refuses iff the checksums differ",
+  ["clone_cmd.rs: header checksum condition (extracted)", "HashSum::ne"])
+h("c04_pinned_header_short_value", ["C04"], "quick", "expected: any value of length 0..63; archive header checksum: any 64 bytes",
+  "with a shorter --verify-header value the clone must still proceed only if the checksums are equal",
+  ["clone_cmd.rs: header checksum condition (extracted)", "HashSum::ne"])
